@@ -2,6 +2,7 @@ import MockeryModel.Run.Pipeline
 import MockeryLemmas.Pipeline
 import MockeryLemmas.Plan
 import MockeryModel.Run.EndToEnd
+import MockeryModel.Generated.Decide
 /-!
 # C10 — Output files are written safely: no stray writes, no clobbering, all-or-nothing
 
@@ -214,5 +215,31 @@ theorem end_to_end_only_resolved_paths_of_selected_mocks (w : World) (t : Tree) 
             obtain ⟨f1, f2, f3⟩ := planMock_fields hplan
             exact ⟨pkgs, mocks, rfl, hs, m, hm, pm, hplan, ((hh pm hpm).1).trans hcp, f1, f2, f3⟩
 
+
+/-! ### the conflict check of the model is the source's -/
+
+def planErrName : PlanErr → String
+  | .pkgName => "pkgname"
+  | .srcPkg => "srcpkg"
+  | .template => "template"
+  | _ => "other"
+
+open Mockery.Generated.Decide in
+/-- `Collection.append` decides as `InterfaceCollection.Append` does, translated statement by statement from the
+current source (Generated/Decide.lean): for a mock whose resolved path is the collection's (the collections are
+keyed by path), the same conflict is reported, or none -/
+theorem conflict_check_is_the_translated_source (c : Collection) (m : PlannedMock) (hp : c.path = m.path) :
+    collectionAppend c.path c.pkgName c.srcPkg c.template m.path m.pkgName m.srcPkg m.template =
+      ((c.append m).mapError planErrName).map (fun _ => ()) := by
+  unfold collectionAppend Collection.append
+  simp only [hp, bne_self_eq_false, Bool.false_eq_true, if_false]
+  by_cases h1 : c.pkgName = m.pkgName <;> by_cases h2 : c.srcPkg = m.srcPkg <;> by_cases h3 : c.template = m.template <;>
+    simp [h1, h2, h3, Except.mapError, Except.map, planErrName, throw, throwThe, MonadExceptOf.throw, pure, Except.pure]
+
+/-- and a mock with another path never reaches a collection: the translated check itself refuses it -/
+theorem other_path_is_refused (a b c d e f g h : String) (hne : a ≠ e) :
+    Mockery.Generated.Decide.collectionAppend a b c d e f g h = .error "path" := by
+  unfold Mockery.Generated.Decide.collectionAppend
+  simp [hne, throw, throwThe, MonadExceptOf.throw]
 
 end Mockery.C10
